@@ -504,6 +504,16 @@ func build(tier string) []*vexp.Scenario {
 		add(params{n: 2, seeds: "two", offsets: []time.Duration{0, 300 * ms}, fd: 4 * s, faults: []fault{{5 * s, "partition", 0, 1}, {9 * s, "heal", 0, 1}}}, b1)
 		add(params{n: 4, seeds: "two", offsets: []time.Duration{0, 300 * ms, 700 * ms, s}, fd: 4 * s}, b0)
 		add(params{n: 4, seeds: "one", offsets: []time.Duration{0, 300 * ms, 700 * ms, s}, fd: 4 * s, faults: []fault{{5 * s, "crash", 3, 0}, {8 * s, "restart", 2, 0}}}, b0)
+		// the upper end of the quantifier (clusters of up to 7 nodes), one deterministic execution per fault timeline
+		off7 := []time.Duration{0, 300 * ms, 700 * ms, s, 1300 * ms, 1700 * ms, 2 * s}
+		for _, n := range []int{5, 6, 7} {
+			for _, seeds := range []string{"one", "two"} {
+				add(params{n: n, seeds: seeds, offsets: off7[:n], fd: 4 * s}, b0)
+				add(params{n: n, seeds: seeds, offsets: off7[:n], fd: 4 * s, faults: []fault{{6 * s, "partition", 1, n - 1}, {16 * s, "heal", 1, n - 1}}}, b0)
+				add(params{n: n, seeds: seeds, offsets: off7[:n], fd: 4 * s, faults: []fault{{6 * s, "restart", n - 1, 0}}}, b0)
+				add(params{n: n, seeds: seeds, offsets: off7[:n], fd: 0, faults: []fault{{6 * s, "restart-moved", n - 1, 0}}}, b0)
+			}
+		}
 	}
 	return out
 }
